@@ -192,6 +192,15 @@ theorem mergeM_sound (l r : List Nat) (hl : l.Pairwise (· < ·)) (acc : Nat × 
     omega
 
 
+theorem sgn_eq_ipow (p : Nat) : GQ.sgn p = GQ.ipow (2 * p) := by
+  unfold GQ.sgn GQ.ipow
+  have : p % 2 = 0 ∨ p % 2 = 1 := by omega
+  rcases this with h | h
+  · have : 2 * p % 4 = 0 := by omega
+    simp [h, this]
+  · have : 2 * p % 4 = 2 := by omega
+    simp [h, this]
+
 theorem mergeM_mem (l r : List Nat) : ∀ x ∈ (mergeM l r).1, x ∈ l ∨ x ∈ r := by
   fun_induction mergeM l r with
   | case1 r => intro x hx; exact Or.inr hx
